@@ -309,6 +309,14 @@ def handleSrvMsg (st : SrvSt) (c : Nat) (m : Msg) (ops : List Op) (resps : List 
       | .ops _ => out.term.isSome
     let st := if violation && (mc ≠ code || mr ≠ reason)
       then st.monfail "c09" s!"session {c}: the specification assigns status code {mc} reason {mr} to this violation, the server answered code {code} reason {reason}" else st
+    -- C09 / C10 monitor: a message the specification accepts does not end the RPC — in particular
+    -- not because of what a session that has gone away left behind
+    let st := if mc == "open" && code != "open" then
+        let st := st.monfail "c09" s!"session {c}: the specification accepts this message, the server ended the RPC (code {code} reason {reason})"
+        let gone := st.ended.filter (fun x => x != c)
+        if gone.isEmpty then st
+        else st.monfail "c10" s!"session {c}: after sessions {gone} had gone away, a message the specification accepts ended this session's RPC (code {code})"
+      else st
     if out.resps ≠ resps then
       st.diff "msg.resps" s!"session={c} model={out.resps.map showResp} impl={resps.map showResp}"
     else if mc ≠ code then st.diff "msg.term.code" s!"session={c} model={mc} impl={code}"
@@ -456,8 +464,13 @@ def afterObs (st : SrvSt) (elec : Option U128) (master : Option Nat) (sess : Lis
   -- verdict or is held now
   let st := match st.lastOps with
     | some (c, ids, answered) =>
-      match ids.find? (fun id => !answered.contains id && !st.rs.implPend.contains id) with
-      | some id => st.monfail "c06" s!"unanswered: operation {id} sent on stream {c} received no result and is not held"
+      let st := match ids.find? (fun id => !answered.contains id && !st.rs.implPend.contains id) with
+        | some id => st.monfail "c06" s!"unanswered: operation {id} sent on stream {c} received no result and is not held"
+        | none => st
+      -- … and an operation that was held before this message and is no longer held has been
+      -- answered by it (released from the pending queue = verdict delivered)
+      match st.prevPend.find? (fun id => !st.rs.implPend.contains id && !answered.contains id) with
+      | some id => st.monfail "c06" s!"unanswered: operation {id} was held, has left the pending queue with the message just processed on stream {c}, and received no result"
       | none => st
     | none => st
   -- C09 monitors: the footprint of a session whose RPC ended is gone; a session that has just
